@@ -154,6 +154,9 @@ namespace
             for (size_t i = before; i < clients.size(); ++i)
                 default_clients.push_back(i);
         }
+        // a run is one heap lifetime, i.e. one process lifetime of the simulated application: allocator-level state that the code under test
+        // might keep between calls (a cache of freed blocks, say) must start empty, so candidates are confirmed/shrunk/observed in pristine processes
+        bool pristine_confirmation() const { return !real_heap; }
         ~C18Harness()
         {
             for (ClientBase* c : clients)
